@@ -39,6 +39,12 @@ CORE = {
 for _pid, (_t, _d) in CORE.items():
     CLAIMED[_pid] = _core(_pid, _t, _d)
 
+CLAIMED["C03"] = dict(
+   text="Lean 4 theorems about PingProto, a labelled transition system of the eventfd ping protocol with ANY number of pinging threads and handle clones and every interleaving at the granularity of single eventfd writes / the loop's read: an 18-clause invariant proved by induction over reachability (omega), from which: no_lost_wakeup (a completed ping not yet followed by a callback keeps the fd readable with the ping bits, or the callback is the next step), poll_sees_owed / drain_reads_ping / callback_covers (the cycle that delivers it), env_monotone (no thread action takes readiness away), no_spurious + coalesce, counter_shape, close_once, outstanding_ping_then_removal, removed_is_quiescent (no spinning). The real Ping/PingSource is run under controlled thread schedules (all schedules of small configurations, random ones of larger) with yield points at every eventfd write/read and compared step by step (label, kernel eventfd counter, callbacks, registration) with the model; Spec_C03 judges the implementation traces.",
+   note="Trusted: Lean kernel + standard axioms; eventfd/epoll semantics as modelled (atomic add / read-and-zero, level-triggered); the yield-point hooks and the scheduler harness; schedules are sampled (exhaustive only for small configurations). Liveness is proved as safety (wake-obligation invariant + enabledness of the delivering cycle), no fairness axiom.",
+   technique="Lean 4 inductive invariant over an unbounded-thread LTS + schedule-controlled correspondence with the real crate + Lean monitor on implementation traces",
+   design="§6 C03")
+
 PENDING_REASON = "not claimed yet in this revision: model and theorems are being built (see DESIGN.md §12 build order); no check is registered rather than registering an unsound one"
 
 def main():
